@@ -615,9 +615,23 @@ func (w *world) blockedByHarness(r *rec) bool {
 		return true
 	}
 	for _, x := range w.allRecs() {
-		if x.parked.Load() && under(x.Label, r.Label) {
+		if x.parked.Load() && w.descends(x, r) {
 			return true
 		}
+	}
+	return false
+}
+
+// descends: r is x or an ancestor of x along the recorded parent pids
+func (w *world) descends(x, r *rec) bool {
+	for i := 0; i < 8 && x != nil; i++ {
+		if x == r {
+			return true
+		}
+		if x.bound.Load() == false {
+			return false
+		}
+		x = w.recOfPID(x.Parent)
 	}
 	return false
 }
